@@ -213,6 +213,46 @@ def branch_order(body, dispatches, bi, dom):
     return res.pop()
 
 
+def type_selected_order(F, X):
+    """Byte order a marker type X stands for when values of X (or references to it) come into being only on one side
+    of an endianness dispatch: every block — outside X's own impls — that assigns a local whose type is X / &X (the
+    construction, the promoted constant, the coercion to a trait object) is control dependent on the same polarity.
+    Returns 'BE' / 'LE', or None (no such site, mixed polarity, or a site under no dispatch)."""
+    res = set()
+    n = 0
+    for p, b in F.bodies.items():
+        if b.get("derived") or b.get("impl_self") == X:
+            continue
+        locs = set()
+        for i, l in enumerate(b["locals"]):
+            t = F.ty(l["ty"])
+            while t["k"] in ("ref", "ptr"):
+                t = F.ty(t["to"])
+            if t["k"] == "adt" and t.get("path") == X and i > b["arg_count"]:
+                locs.add(i)
+        if not locs:
+            continue
+        dom = disp = None
+        for bi, blk in enumerate(b["blocks"]):
+            if blk["cleanup"]:
+                continue
+            hit = any(s["k"] == "assign" and s["p"]["l"] in locs for s in blk["stmts"])
+            t = blk["term"]
+            if t["k"] == "call" and t["dest"]["l"] in locs:
+                hit = True
+            if not hit:
+                continue
+            if dom is None:
+                dom, _ = cfg.dominators(b)
+                disp = endianness_dispatches(F, b)
+            n += 1
+            res.add(branch_order(b, disp, bi, dom))
+    if n and len(res) == 1:
+        r = res.pop()
+        return r if r in ("BE", "LE") else None
+    return None
+
+
 # spec: fixed-order contexts (standard + extended header are big endian [PRS_Dlt_00091];
 # the storage header's timestamps are little endian by dlt-daemon convention)
 FIXED_CONTEXT = {
@@ -368,6 +408,16 @@ def check(ctx, bodies, rule="ORD-1", paired=()):
                         else:
                             R.violation(rule, key + "|" + str(bo), "%s (%s) is not selected by the matching `endianness == Big` branch (control dependence gives %s)" % (desc, oc, bo), file=fl, line=ln, function=p)
                         continue
+                    isf = b.get("impl_self")
+                    if isf and oc in ("BE", "LE"):
+                        # order chosen by type: an impl for the byte-order marker itself, or for a local marker type
+                        # whose values only come into being under the matching endianness branch
+                        if ORDER_TYPES.get(isf) == oc:
+                            R.instance(rule, "%s: %s in an impl for %s ok" % (p, desc, isf))
+                            continue
+                        if isf in F.adts and type_selected_order(F, isf) == oc:
+                            R.instance(rule, "%s: %s in an impl for %s, which is only selected under endianness == %s ok" % (p, desc, isf, "Big" if oc == "BE" else "Little"))
+                            continue
                     # any other handwritten function: order-specific numeric primitive outside a declared context
                     R.violation(rule, key, "%s (%s) in a function with no declared byte-order context" % (desc, oc), file=fl, line=ln, function=p, kind="UNCLASSIFIED-CONTEXT")
             # multi-byte order-dependent constants appended to a buffer in a T context
